@@ -266,7 +266,148 @@ def hostile_message(rng: random.Random) -> bytes:
     return msg
 
 
+SIEVE_NAMES = [b'"a"', b'"x y"', b'"q\\"t"', b'{3+}\r\nabc', b'""', b'"\xc3\xa9"',
+               b'"\xff"', b'{0+}\r\n', b'a', b'"' + b'n' * 300 + b'"', b'NIL',
+               b'{2}\r\nab', b'"a\\b"', b'"\x00"']
+SIEVE_BODIES = [b'"keep;"', b'{5+}\r\nkeep;', b'{0+}\r\n', b'""',
+                b'{12+}\r\nif true {}\r\n', b'"\xff\xfe"', b'{4+}\r\n{9+}',
+                b'{3+}\r\n\x00\x01\x02', b'"require \\"x\\";"',
+                b'{99999999999+}\r\n', b'{5}\r\nkeep;', b'keep']
+
+
+def gen_sieve_line(rng: random.Random) -> bytes:
+    nm = lambda: rng.choice(SIEVE_NAMES)
+    body = lambda: rng.choice(SIEVE_BODIES)
+    cmds = [
+        lambda: b'NOOP', lambda: b'NOOP "tag"', lambda: b'NOOP ' + nm(),
+        lambda: b'CAPABILITY', lambda: b'STARTTLS', lambda: b'UNAUTHENTICATE',
+        lambda: b'AUTHENTICATE "PLAIN" "AHVzZXIAcGFzcw=="',
+        lambda: b'AUTHENTICATE "PLAIN"', lambda: b'AUTHENTICATE "NOPE" ""',
+        lambda: b'AUTHENTICATE "PLAIN" "!!!"', lambda: b'AUTHENTICATE PLAIN',
+        lambda: b'AUTHENTICATE "PLAIN" "/w=="', lambda: b'AUTHENTICATE "LOGIN"',
+        lambda: b'HAVESPACE ' + nm() + b' ' + rng.choice(
+            [b'10', b'0', b'99999999999999999999', b'-1', b'x', b'9' * 5000]),
+        lambda: b'PUTSCRIPT ' + nm() + b' ' + body(),
+        lambda: b'LISTSCRIPTS', lambda: b'SETACTIVE ' + nm(),
+        lambda: b'GETSCRIPT ' + nm(), lambda: b'DELETESCRIPT ' + nm(),
+        lambda: b'RENAMESCRIPT ' + nm() + b' ' + nm(),
+        lambda: b'CHECKSCRIPT ' + body(),
+        lambda: b'CHECKSCRIPT ' + rng.choice([
+            b'"if"', b'"require [\\"a\\", ];"', b'"' + b'if true { ' * 200 + b'"',
+            b'"keep; /* unterminated"', b'"# comment"', b'"text:\r\n.\r\n"',
+            b'"if header :contains \\"a\\" \\"b\\" { discard; }"',
+            b'"(((((((((("', b'"\\"\\\\\\"\\""']),
+        lambda: b'FOO', lambda: b'', lambda: b'"quoted" command',
+        lambda: b'PUTSCRIPT', lambda: b'GETSCRIPT', lambda: b'LOGOUT X']
+    return rng.choice(cmds)()
+
+
+def gen_sieve_case(rng: random.Random) -> dict:
+    cfg = {'backend': 'dict', 'users': [USER], 'tls': rng.random() < 0.2,
+           'buggify': []}
+    if rng.random() < 0.3:
+        cfg['max_append_len'] = rng.choice([10, 100])
+    lines = []
+    if rng.random() < 0.7:
+        lines.append({'line': s(b'AUTHENTICATE "PLAIN" "AHVzZXIAcGFzcw=="\r\n'),
+                      'complete': True})
+    for _ in range(rng.randint(1, 8)):
+        r = rng.random()
+        body = gen_sieve_line(rng)
+        if r < 0.5:
+            pass
+        elif r < 0.85:
+            body = mutate(rng, body)
+        else:
+            body = bytes(rng.randrange(256)
+                         for _ in range(rng.randint(0, 60)))
+        line = body + b'\r\n'
+        if len(line) >= 65000:
+            line = line[:60000].replace(b'\n', b' ') + b'\r\n'
+        lines.append({'line': s(line), 'complete': balanced(line)})
+    return {'config': cfg, 'steps': lines, 'family': 'sieve',
+            'state': 'sieve'}
+
+
+def run_sieve_inputs(case: dict, trace: bool = False) -> dict:
+    from sim.world import World, innermost_pymap_frame
+    from sim.sieve import SieveClient
+    from sim.engine import Violation
+    world = World(case['config'], seed=int(case.get('seed', 0)), trace=trace)
+    violations = []
+    n = 0
+
+    def violate(clause, detail, **sig):
+        sig.setdefault('backend', 'dict')
+        sig['listener'] = 'managesieve'
+        violations.append(Violation(property='C06', clause=clause,
+                                    detail=detail, sig=sig, step=n,
+                                    seq=world.seq))
+    try:
+        cl = SieveClient(world, 0)
+        canary = SieveClient(world, 1)
+        world.run(0.5, None, [])
+        wedged = False
+        for step in case['steps']:
+            if cl.conn.done or cl.error is not None or violations:
+                break
+            line = step['line'].encode('latin-1')
+            before = len(cl.responses)
+            n += 1
+            cl.send(line)
+            try:
+                world.run(2.0, None, [])
+            except Exception as exc:           # HangDetected is BaseException
+                raise
+            answered = len(cl.responses) > before
+            if not step.get('complete'):
+                wedged = True
+            if not answered and not wedged and not cl.conn.done:
+                # AUTHENTICATE exchanges send a bare string and wait
+                if cl.pos < len(cl.conn.out):
+                    cl.send(b'"*"\r\n')
+                    world.run(2.0, None, [])
+                    answered = len(cl.responses) > before
+                if not answered and not cl.conn.done:
+                    violate('unanswered', 'ManageSieve line %r got no OK/NO/'
+                            'BYE within 2 virtual seconds' % line[:80])
+                    break
+            r = canary.command(b'NOOP\r\n')
+            if r is None or not r.ok:
+                violate('canary', 'another ManageSieve connection got no OK '
+                        'for NOOP after %r' % line[:80])
+                break
+        for c in (cl, canary):
+            task = c.conn.task
+            if task.done() and not task.cancelled() and task.exception():
+                exc = task.exception()
+                from sim.loop import HangDetected
+                violate('hang' if isinstance(exc, HangDetected)
+                        else 'serverbug', '%s: %s' % (type(exc).__name__,
+                                                      str(exc)[:200]),
+                        exception=type(exc).__name__,
+                        site=innermost_pymap_frame(exc))
+                break
+        # an exception caught by the listener's catch-all is answered with
+        # NO "Server error.": a completion, so not a C06 violation; counted
+        caught = sum(1 for info in world.server_errors
+                     if 'exception' in info)
+        res = {'violations': violations, 'digest': world.digest(),
+               'stats': {'inputs': n, 'sieve_cases': 1,
+                         'sieve_no_server_error': caught},
+               'probes': dict(world.probes), 'fired': dict(world.fired),
+               'moves': world.moves, 'sim_seconds': world.clock.now,
+               'nontrivial': n >= 1}
+        if trace:
+            res['trace'] = world.trace
+        return res
+    finally:
+        world.close()
+
+
 def gen_input_case(rng: random.Random, tier: str, backends=('dict',)) -> dict:
+    if rng.random() < 0.15:
+        return gen_sieve_case(rng)
     state = rng.choice(['nonauth', 'auth', 'selected', 'selected'])
     cfg = {'backend': rng.choice(backends), 'users': [USER],
            'bad_command_limit': rng.choice([5, 5, 2, 0, 10]),
@@ -355,6 +496,8 @@ def valid_tag(tag: bytes) -> bool:
 
 def run_inputs(case: dict, trace: bool = False,
                keep_all: bool = False) -> dict:
+    if case.get('family') == 'sieve':
+        return run_sieve_inputs(case, trace)
     ctx = Ctx(case, trace=trace)
     limit = case['config'].get('bad_command_limit', 5)
     consecutive_bad = 0
@@ -488,7 +631,10 @@ class C06(Profile):
             'bytes (15%), with IDLE/AUTHENTICATE continuation data; or a '
             'hostile stored message (35 shapes + byte mutation) followed by '
             'FETCH with 3-8 of 35 attributes, SEARCH with 3-8 of 39 keys and '
-            'COPY. A canary connection sends NOOP after every input. '
+            'COPY; 15% of the cases go to the ManageSieve listener instead '
+            '(1-8 lines from templates for every command with hostile names, '
+            'script bodies and CHECKSCRIPT sources, mutated, or raw). A '
+            'canary connection sends NOOP after every input. '
             'Distinct = case hash; non-trivial = at least one input line '
             'reached the server.')
     assumptions = C01.assumptions + [
